@@ -27,6 +27,7 @@ type C17Case struct {
 	DQ      bool           `json:"dq,omitempty"`      // identifiers spelled with double quotes (needs PG)
 	BR      bool           `json:"br,omitempty"`      // arrays spelled [..] (needs Arrays)
 	Pad     bool           `json:"pad,omitempty"`     // extra white space inside brackets
+	BSQuote bool           `json:"bsquote,omitempty"` // variant spells a quote inside a literal as \' (canonical: '')
 }
 
 var c17LitPieces = []string{"\"", "'", "`", "\\", "[", "]", "é", "日本", "a", " ", "[1,2]", "\"x\"", "\\\"", "]]", "[[", "''", "b", "😀", "\\\\", "ARRAY(", ")", ","}
@@ -111,6 +112,7 @@ func genC17(t *rapid.T) any {
 		c.BR = rapid.IntRange(0, 3).Draw(t, "br") != 0
 		c.Pad = rapid.IntRange(0, 3).Draw(t, "pad") == 0
 	}
+	c.BSQuote = rapid.IntRange(0, 2).Draw(t, "bsquote") == 0
 	identPool := append([]string{}, c17Idents...)
 	aliasPool := append([]string{}, c17Aliases...)
 	if !c.DQ {
@@ -180,6 +182,9 @@ func (c *C17Case) render(variant bool) string {
 		if c.BR {
 			st.Arrays = "br"
 		}
+		if c.BSQuote {
+			st.Quote = "bs"
+		}
 	}
 	s := "SELECT " + renderSelect(c.Items, 0, st) + " FROM " + sq.Ident(from, st)
 	if c.Where != nil {
@@ -243,6 +248,9 @@ func checkC17(c *C17Case) Result {
 	}
 	if c.BR {
 		res.Labels = append(res.Labels, "spelling:brackets")
+	}
+	if c.BSQuote {
+		res.Labels = append(res.Labels, "spelling:backslash-escaped-quotes")
 	}
 	hostile := false
 	maxDepth := 0
@@ -330,7 +338,7 @@ func init() {
 			"in selector syntax, aliases with the same hostile characters, ARRAY expressions nested to depth 4 (with literals containing brackets, " +
 			"identifiers containing brackets, FIRST/LAST over arrays), an optional WHERE, and a non-empty option set out of the 2^3-1 combinations; " +
 			"the variant (options on; double-quoted identifiers when PostgresEscapingDialect is on, [..] arrays when IdiomaticArrays is on, each " +
-			"also left in canonical spelling sometimes; optional white space inside brackets) must behave exactly like the canonical query (no " +
+			"also left in canonical spelling sometimes; quotes inside literals spelled \\' instead of '' in a third of the cases; optional white space inside brackets) must behave exactly like the canonical query (no " +
 			"options, backticks, ARRAY(..), input {\"root\": input} for Wrapped): same rows in the same order or both fail; pure string-literal " +
 			"items must echo exactly. Non-trivial: canonical query returns >=1 row and a literal/identifier/alias contains one of the hostile " +
 			"characters or an array nests >=2 deep.",
